@@ -273,6 +273,9 @@ def gen_traffic(rng, i, tier, *, nclients=None, retries=(0, 1, -1), n_msgs=None,
     t_fault1 = t_fault0 + rng.choice([1.0, 2.0, 4.0, 8.0])
     if fault:
         cfg["phases"] = fault_phase(rng, t_fault0, t_fault1, heavy=heavy)
+        if rng.random() < 0.15:
+            # duplication (never loss: the handshake is not loss tolerant by design) already during the handshake
+            cfg["phases"].append({"t0": 0.0, "t1": t_start, "dup": rng.choice([0.2, 0.5]), "dup_delay": rng.choice([0.0, 0.02, 0.2])})
     m = n_msgs or rng.choice([3, 6, 12, 25, 60])
     big = big or (200000 if tier == "thorough" else 40000)
     rtt0 = 2 * (cfg["latency"] + cfg["jitter"]) + 2 * cfg["reactor_lag"] + 2 * max(cfg["server"]["interval"], 1 / 60)
